@@ -243,6 +243,9 @@ func (r *Reader) parseWorksheets() error {
 	return nil
 }
 
+// maxGridCells bounds the number of cells of one worksheet grid (rows x columns).
+const maxGridCells = 8 << 20
+
 // parseWorksheet parses a single worksheet.
 func (r *Reader) parseWorksheet(data []byte, name string, index int) (*Sheet, error) {
 	var ws worksheetXML
@@ -289,6 +292,12 @@ func (r *Reader) parseWorksheet(data []byte, name string, index int) (*Sheet, er
 				maxCol = col
 			}
 		}
+	}
+
+	// The grid is allocated densely, and its size comes from the file: a single
+	// cell addressed XFD1048576 would ask for 17 thousand million cells.
+	if maxRow > 0 && maxCol+1 > maxGridCells/maxRow {
+		return nil, fmt.Errorf("worksheet %q is too large to load: %d rows x %d columns", name, maxRow, maxCol+1)
 	}
 
 	sheet.MaxRow = maxRow - 1 // Convert to 0-indexed
